@@ -638,3 +638,185 @@ func litVarOf(f *core.Func) *types.Var {
 	})
 	return out
 }
+
+// ---- ninth round of seeded changes ----
+
+// c13R12: "LocateInPackage(pos) returns the package whose source directory holds the file of pos": every package the
+// function returns is returned under `filepath.Dir(<position of pos>.Filename) == <that package>.SourceDir()`. (A
+// containment test on the syntax files - `f.Pos() <= pos && pos <= f.End()` - starts at the package keyword and ends
+// with the last declaration: positions in a licence header, a build line or a trailing comment belong to no file.)
+func c13R12(p *core.Program, r *core.Report) {
+	const rule = "R12"
+	r.Floor(rule, 1)
+	var f *core.Func
+	for _, cand := range p.Funcs() {
+		if cand.Decl != nil && cand.Decl.Recv != nil && cand.Decl.Name.Name == "LocateInPackage" && core.RelPkg(cand.Pkg.PkgPath) == "pkg/types" {
+			f = flatten(p, cand)
+		}
+	}
+	if f == nil {
+		r.Anchor(rule, "pkg/types.(*Universe).LocateInPackage")
+		return
+	}
+	info := f.Info()
+	g := graph(f)
+	n := 0
+	ast.Inspect(f.Body, func(m ast.Node) bool {
+		ret, ok := m.(*ast.ReturnStmt)
+		if !ok || len(ret.Results) != 1 {
+			return true
+		}
+		if id, isID := ast.Unparen(ret.Results[0]).(*ast.Ident); isID && id.Name == "nil" {
+			return true
+		}
+		n++
+		retV := core.VarOf(info, ret.Results[0])
+		good := false
+		for _, fct := range g.FactsAt(g.PointOf(ret)) {
+			b, isB := ast.Unparen(fct.Cond).(*ast.BinaryExpr)
+			if !isB || !((b.Op == token.EQL) == fct.Val) || (b.Op != token.EQL && b.Op != token.NEQ) {
+				continue
+			}
+			isDirOfPos := func(e ast.Expr) bool {
+				e, _ = core.Resolve(info, f.Body, e)
+				c, isCall := ast.Unparen(e).(*ast.CallExpr)
+				if !isCall || (core.CalleeName(info, c) != "path/filepath.Dir" && core.CalleeName(info, c) != "path.Dir") || len(c.Args) != 1 {
+					return false
+				}
+				sel, isSel := ast.Unparen(c.Args[0]).(*ast.SelectorExpr)
+				if !isSel || sel.Sel.Name != "Filename" {
+					return false
+				}
+				pe, _ := core.Resolve(info, f.Body, sel.X)
+				pc, isPC := ast.Unparen(pe).(*ast.CallExpr)
+				if !isPC || core.NamedTypeName(info.TypeOf(pc)) != "go/token.Position" || len(pc.Args) < 1 {
+					return false
+				}
+				pv := core.VarOf(info, pc.Args[0])
+				return pv != nil && isParamOf(f, pv)
+			}
+			isSourceDirOf := func(e ast.Expr) bool {
+				e, _ = core.Resolve(info, f.Body, e)
+				c, isCall := ast.Unparen(e).(*ast.CallExpr)
+				if !isCall || !strings.HasSuffix(core.CalleeName(info, c), ").SourceDir") {
+					return false
+				}
+				return retV != nil && core.VarOf(info, recvOf(c)) == retV
+			}
+			if (isDirOfPos(b.X) && isSourceDirOf(b.Y)) || (isDirOfPos(b.Y) && isSourceDirOf(b.X)) {
+				good = true
+			}
+		}
+		r.Check(good, rule, f, "a package is answered for a position only when the file's directory is its source directory", ret.Pos(), "return p under filepath.Dir(Position(pos).Filename) == p.SourceDir()",
+			"`"+core.ExprStr(ret)+"` is not decided by comparing the directory of the position's file with the package's SourceDir(): positions outside the span another test looks at (before the package clause, after the last declaration) are answered nil although their file lies in the package's directory")
+		return true
+	})
+	if n == 0 {
+		r.Anchor(rule, "a return of a package in LocateInPackage")
+	}
+}
+
+// c14R17: a call of a method of an instantiated generic type is not traced into the generic declaration: the resolver
+// looks declarations up under the *types.Func the checker recorded for the call, never under its Origin() (inside the
+// generic body results have the type parameter's type, which is not assignable to the caller's result type).
+func c14R17(p *core.Program, r *core.Report, fs []*core.Func) {
+	const rule = "R17"
+	r.Floor(rule, 1)
+	bad := 0
+	seen := map[*ast.CallExpr]bool{}
+	scan := func(f *core.Func) {
+		if f == nil || f.Body == nil {
+			return
+		}
+		info := f.Info()
+		for _, c := range core.Calls(f.Body, true) {
+			if seen[c] || core.CalleeName(info, c) != "(*go/types.Func).Origin" {
+				continue
+			}
+			seen[c] = true
+			bad++
+			r.Bad(rule, f, "declarations are looked up under the function the checker recorded", c.Pos(), "`"+core.ExprStr(c)+"` replaces the method of an instantiated generic type by its generic declaration: the resolver then scans the generic body, whose results have the type parameter's type - not assignable to the result type of the caller that is being resolved")
+		}
+	}
+	for _, f := range fs {
+		scan(f)
+	}
+	// accessors of the package record the resolver reads its tables through
+	for _, f := range p.Funcs() {
+		if f.Decl == nil || f.Decl.Recv == nil || core.RelPkg(f.Pkg.PkgPath) != "pkg/types" || f.Obj() == nil {
+			continue
+		}
+		sig := f.Obj().Type().(*types.Signature)
+		for i := 0; i < sig.Params().Len(); i++ {
+			if core.NamedTypeName(sig.Params().At(i).Type()) == "go/types.Func" {
+				scan(f)
+			}
+		}
+	}
+	if bad == 0 {
+		r.OK(rule, nil, "declarations are looked up under the function the checker recorded", token.NoPos, "no (*types.Func).Origin() in the resolver or the accessors it reads its tables through")
+	}
+}
+
+// c14R18: "the alternatives at each position are exactly those values": the Value of an alternative is what Eval
+// answered for the expression's text (the exact untyped constant), never the constant go/types recorded in place for
+// the expression (that one is already converted - rounded - to the type of the position it stands in).
+func c14R18(p *core.Program, r *core.Report, fs []*core.Func) {
+	const rule = "R18"
+	r.Floor(rule, 1)
+	n := 0
+	for _, f := range fs {
+		if f.Body == nil {
+			continue
+		}
+		info := f.Info()
+		ast.Inspect(f.Body, func(m ast.Node) bool {
+			if _, isLit := m.(*ast.FuncLit); isLit {
+				return false
+			}
+			cl, ok := m.(*ast.CompositeLit)
+			if !ok || core.NamedTypeName(info.TypeOf(cl)) != core.G("pkg/types.Result") {
+				return true
+			}
+			for _, el := range cl.Elts {
+				kv, isKV := el.(*ast.KeyValueExpr)
+				if !isKV || identOf(kv.Key) == nil || identOf(kv.Key).Name != "Value" {
+					continue
+				}
+				n++
+				// <x>.Value with every definition of x the first result of an Eval call
+				sel, isSel := ast.Unparen(kv.Value).(*ast.SelectorExpr)
+				good, why := false, "the value is not the Value of what Eval answered"
+				if isSel && sel.Sel.Name == "Value" {
+					if xv := core.VarOf(info, sel.X); xv != nil && core.NamedTypeName(xv.Type()) == core.G("pkg/types.Result") {
+						good = true // an alternative handed on as it was found
+					} else if xv != nil {
+						defs := core.DefsOf(info, f.Root().Body, xv)
+						good = len(defs) > 0
+						for _, d := range defs {
+							c, isCall := ast.Unparen(d.Rhs).(*ast.CallExpr)
+							name := ""
+							if isCall {
+								name = core.CalleeName(info, c)
+							}
+							if !isCall || !(strings.HasSuffix(name, ").Eval") || name == "go/types.Eval") {
+								good = false
+								if d.Rhs != nil {
+									why = "`" + core.ExprStr(d.Rhs) + "` is not an Eval of the expression"
+								}
+							}
+						}
+					} else if c, isCall := ast.Unparen(sel.X).(*ast.CallExpr); isCall && strings.HasSuffix(core.CalleeName(info, c), ").Eval") {
+						good = true
+					}
+				}
+				r.Check(good, rule, f, "an alternative's constant is what Eval answered: "+core.ExprStr(kv.Value), kv.Pos(), "Value of the TypeAndValue Eval returned",
+					why+": the constant the type checker records for an expression in place is already converted to the type of its position (0.1 in a float64 result is the nearest double, 16777217 in a float32 result is 16777216), so the alternative is not the value in the source")
+			}
+			return true
+		})
+	}
+	if n == 0 {
+		r.Anchor(rule, "Result literals with a Value in the resolver")
+	}
+}
